@@ -196,3 +196,21 @@ Definition nonnil (e : rerr) : bool := negb (N.eqb e 0).
 (* everything delivered for a source that returns [script] and then ends *)
 Definition deliver (sz : nat) (script : list bytes) : list bytes :=
   let (os, r) := run_all sz script in emitted os ++ finish r.
+
+(* ---------------- a reader that lives on after Finish ---------------- *)
+(* Finish as a state transformer: lr.buf = lr.buf[:0]; lr.off = 0 (the capacity
+   stays).  File streams call it at a truncation and go on reading the same
+   file with the same reader; a script is then a list of GENERATIONS, each a
+   list of reads, every generation closed by one Finish. *)
+Definition finish_st (r : lr) : lr := mk_lr [] (cap r) 0 (size r) (bad r).
+
+Fixpoint run_gens (r : lr) (gens : list (list bytes)) : list (list obs * list bytes) * lr :=
+  match gens with
+  | [] => ([], r)
+  | g :: rest =>
+      let (os, r1) := run (run_fuel g) r g in
+      let (more, r2) := run_gens (finish_st r1) rest in
+      ((os, finish r1) :: more, r2)
+  end.
+
+Definition gen_lines (x : list obs * list bytes) : list bytes := emitted (fst x) ++ snd x.
